@@ -10,6 +10,7 @@ def add(pid, technique, text, note, ref):
     CHECKS[pid] = (technique, text, note, ref)
 
 NOT_APPLICABLE = {}
+ADDENDA = {}
 exec(open(os.path.join(HERE, "tools", "manifest_table.py")).read())
 import glob
 for fn in sorted(glob.glob(os.path.join(HERE, "tools", "manifest.d", "*.py"))):
@@ -21,6 +22,8 @@ for pid in props:
     if pid not in CHECKS or pid not in READY:
         continue
     technique, text, note, ref = CHECKS[pid]
+    if ADDENDA.get(pid):
+        text = text.rstrip() + " " + ADDENDA[pid]
     checks.append({
         "property_id": pid,
         "quick_cmd": RUN % (pid, "quick"),
